@@ -337,12 +337,14 @@ public:
     return *this;
   }
   ExposedT operator++() {
-    this->value = OnStoreSt::fn(OnLoadSt::fn(this->value) + 1);
-    return this->value;
+    ExposedT ret = OnLoadSt::fn(this->value) + 1;
+    this->value = OnStoreSt::fn(ret);
+    return ret;
   }
   ExposedT operator--() {
-    this->value = OnStoreSt::fn(OnLoadSt::fn(this->value) - 1);
-    return this->value;
+    ExposedT ret = OnLoadSt::fn(this->value) - 1;
+    this->value = OnStoreSt::fn(ret);
+    return ret;
   }
   ExposedT operator++(int) {
     ExposedT ret = OnLoadSt::fn(this->value);
